@@ -80,8 +80,14 @@ def rule_validation(check, rule):
     ap = repo.func('_signatures:apply_params')
     txt = [n_ for n_ in ast.walk(ap.node) if isinstance(n_, ast.Call) and isinstance(n_.func, ast.Attribute) and n_.func.attr == 'replace'
            and any(kw.arg == 'parameters' for kw in n_.keywords)]
+    ctor = [n_ for n_ in ast.walk(ap.node) if isinstance(n_, ast.Call) and norm(n_.func).split('.')[-1] in ('UpgradedSignature', 'Signature')
+            and (n_.args or any(kw.arg == 'parameters' for kw in n_.keywords))]
+    rets = [n_ for n_ in ast.walk(ap.node) if isinstance(n_, ast.Return)]
     if txt:
         check.holds(rule, site_of(ap, txt[0]), 'apply_params rebuilds through Signature.replace(parameters=...)', key='apply_params|replace')
+    elif ctor and all(isinstance(r.value, ast.Call) and r.value in ctor for r in rets):
+        # (the class constructor validates just the same: what it may lose is C09.R2's business)
+        check.holds(rule, site_of(ap, ctor[0]), 'apply_params rebuilds through the validating UpgradedSignature constructor', key='apply_params|replace')
     else:
         check.violation(rule, site_of(ap, ap.node), 'apply_params no longer rebuilds the signature through replace(parameters=...)', key='apply_params|replace')
     us = repo.cls('_signatures:UpgradedSignature')
